@@ -104,12 +104,45 @@ pub fn gen_plan(property: &str, seed: u64, index: u64, tier: Tier) -> Plan {
             lru = *rng.pick(&[7usize, 64, 4096]);
             // >= 20% terminal / near-terminal starts
             let roll = rng.below(10);
+            if index % 397 == 13 {
+                // context soak: one Game (one search context, one result cache) answers every move of a
+                // middlegame at depth 4, so that its cache grows to several hundred thousand entries
+                let (_, s) = choose_start(&mut rng, &[(StartKind::Initial, 2), (StartKind::Suite, 1)]);
+                let mut pos = s.clone();
+                for _ in 0..rng.range(if thorough { 36 } else { 28 }, if thorough { 50 } else { 34 }) {
+                    let legal = pos.legal_moves();
+                    if legal.is_empty() {
+                        break;
+                    }
+                    ops.push(Op::Search(4));
+                    let k = choose_move(&mut rng, &pos, &legal, Policy::Spicy, None);
+                    ops.push(Op::Make(k as u32));
+                    pos = pos.make(&legal[k]);
+                }
+                knobs.insert("via_game".to_string(), 1);
+                knobs.insert("game_depth".to_string(), 4);
+                return Plan {
+                    property: property.to_string(),
+                    scenario: "context-soak".to_string(),
+                    seed,
+                    index,
+                    start_fen: s.to_fen(),
+                    lru,
+                    register: false,
+                    knobs,
+                    ops,
+                    schedule: String::new(),
+                };
+            }
             if index % 10 == 7 {
                 // late game: a long quiet stretch takes the half-move clock to and past 100, or a
                 // registered shuffle reaches a third occurrence; a legal move must still be returned
                 let (_, s) = choose_start(&mut rng, &[(StartKind::Endgame, 3), (StartKind::Initial, 1), (StartKind::Special, 1)]);
                 let repetition = rng.chance(1, 2);
-                let plies = if repetition { rng.range(9, 16) } else { rng.range(98, 112) };
+                // one in five of the long stretches is a very long game (several hundred plies of
+                // history on the board when the search is asked)
+                let very_long = !repetition && rng.chance(1, 5);
+                let plies = if repetition { rng.range(9, 16) } else if very_long { rng.range(258, 320) } else { rng.range(98, 112) };
                 let mut pos = s.clone();
                 let mut own: [Option<Mv>; 2] = [None, None];
                 for n in 0..plies {
@@ -118,19 +151,19 @@ pub fn gen_plan(property: &str, seed: u64, index: u64, tier: Tier) -> Plan {
                         break;
                     }
                     let side = pos.stm as usize;
-                    let k = choose_move(&mut rng, &pos, &legal, if repetition { Policy::Shuffle } else { Policy::Frozen }, own[side].as_ref());
+                    let k = choose_move(&mut rng, &pos, &legal, if repetition { Policy::Shuffle } else if very_long { Policy::Quiet } else { Policy::Frozen }, own[side].as_ref());
                     ops.push(Op::Make(k as u32));
                     own[side] = Some(legal[k]);
                     pos = pos.make(&legal[k]);
                     if n + 6 >= plies {
-                        ops.push(Op::Search(1));
+                        ops.push(Op::Search(if very_long { 2 } else { 1 }));
                     }
                 }
                 knobs.insert("via_game".to_string(), 0);
                 knobs.insert("game_depth".to_string(), 1);
                 return Plan {
                     property: property.to_string(),
-                    scenario: if repetition { "registered-shuffle".to_string() } else { "long-quiet-stretch".to_string() },
+                    scenario: if repetition { "registered-shuffle".to_string() } else if very_long { "very-long-game".to_string() } else { "long-quiet-stretch".to_string() },
                     seed,
                     index,
                     start_fen: s.to_fen(),
@@ -503,6 +536,10 @@ pub fn exec(plan: &Plan) -> Outcome {
                                 GameError::SearchError { error: SearchError::DepthTooLow } => "DepthTooLow".to_string(),
                                 other => format!("{:?}", other),
                             });
+                            stats.add("positions-searched-by-the-game-context", g.searched_position_count() as u64);
+                            if plan.scenario == "context-soak" && stats.counters.get("positions-searched-by-the-game-context").copied().unwrap_or(0) >= 1 << 19 && !stats.counters.contains_key("probe/one-context-searched-half-a-million-positions") {
+                                stats.bump("probe/one-context-searched-half-a-million-positions");
+                            }
                             (before, r, snapshot(g.board()))
                         }
                         None => {
